@@ -1,4 +1,4 @@
-// shared: Rust's float arithmetic never panics.  This Verus release gives f64 `+ - * /` an unsatisfiable operator precondition
+// shared: Rust's float arithmetic never panics.  This Verus release gives f64 `+ - * / %` an unsatisfiable operator precondition
 // (no float specs), which would turn any float arithmetic in extracted code into a spurious "precondition not satisfied".
 // These axioms state the true fact (the operators are total); the *results* stay unspecified.
 mod vp_float_total {
@@ -8,5 +8,6 @@ pub broadcast axiom fn ax_f64_add(a: f64, b: f64) ensures #[trigger] a.add_req(b
 pub broadcast axiom fn ax_f64_sub(a: f64, b: f64) ensures #[trigger] a.sub_req(b);
 pub broadcast axiom fn ax_f64_mul(a: f64, b: f64) ensures #[trigger] a.mul_req(b);
 pub broadcast axiom fn ax_f64_div(a: f64, b: f64) ensures #[trigger] a.div_req(b);
+pub broadcast axiom fn ax_f64_rem(a: f64, b: f64) ensures #[trigger] a.rem_req(b);
 }
-broadcast use {vp_float_total::ax_f64_add, vp_float_total::ax_f64_sub, vp_float_total::ax_f64_mul, vp_float_total::ax_f64_div};
+broadcast use {vp_float_total::ax_f64_add, vp_float_total::ax_f64_sub, vp_float_total::ax_f64_mul, vp_float_total::ax_f64_div, vp_float_total::ax_f64_rem};
